@@ -191,6 +191,13 @@ fn write_replay<C: Serialize>(
     Ok(path)
 }
 
+/// Coverage of a systematic pre-phase (bounded exhaustive enumeration), merged into the evidence.
+pub static EXTRA_COVERAGE: Mutex<Option<serde_json::Value>> = Mutex::new(None);
+/// Violation found by a systematic pre-phase: reported by `run_engine` instead of searching.
+pub static PRE_VIOLATION: Mutex<Option<(Violation, PathBuf)>> = Mutex::new(None);
+/// Known findings hit by a systematic pre-phase
+pub static PRE_KNOWN_HITS: Mutex<Vec<(String, u64)>> = Mutex::new(Vec::new());
+
 /// Runs the regress cases, then the random search. Writes evidence. Returns the exit code.
 pub fn run_engine<E: Engine + 'static>(engine: Arc<E>, tier: Tier, seed: u64) -> i32 {
     let start = Instant::now();
@@ -239,6 +246,16 @@ pub fn run_engine<E: Engine + 'static>(engine: Arc<E>, tier: Tier, seed: u64) ->
                 }
             }
         }
+    }
+
+    for (sig, n) in PRE_KNOWN_HITS.lock().unwrap().drain(..) {
+        *stats.lock().unwrap().known_hits.entry(sig).or_default() += n;
+    }
+    if let Some((v, path)) = PRE_VIOLATION.lock().unwrap().take() {
+        println!("VIOLATION property={} replay={}", prop, path.display());
+        println!("  signature: {}\n  detail: {}", v.signature, v.detail);
+        write_evidence(&*engine, tier, seed, &stats, 1, start, regress_run);
+        return 1;
     }
 
     // 2. random search
@@ -509,6 +526,10 @@ fn write_evidence<E: Engine>(
         "wall_s": start.elapsed().as_secs_f64(),
         "violations": violations,
     });
+    let mut ev = ev;
+    if let Some(x) = EXTRA_COVERAGE.lock().unwrap().clone() {
+        ev["coverage"]["systematic"] = x;
+    }
     let dir = Path::new(VERIF_ROOT).join("evidence");
     std::fs::create_dir_all(&dir).unwrap();
     std::fs::write(
